@@ -116,6 +116,11 @@ func genDocValue(t *rapid.T, depth int, label string) any {
 			for j := 0; j < m; j++ {
 				inner = append(inner, genDocValue(t, depth-2, fmt.Sprintf("%s.%d.%d", label, i, j)))
 			}
+			if i > 0 && rapid.IntRange(0, 5).Draw(t, fmt.Sprintf("%s.%d.odd", label, i)) == 0 {
+				// not every row of a matrix need be an array: NULL, a scalar or an object in a later position
+				out = append(out, rapid.SampledFrom([]any{nil, 7.0, "x", map[string]any{"a": 1.0}}).Draw(t, fmt.Sprintf("%s.%d.oddrow", label, i)))
+				continue
+			}
 			out = append(out, inner)
 		}
 		return out
@@ -520,6 +525,22 @@ func genC09(t *rapid.T) any {
 				} else {
 					row = append(row, float64(i*10+j))
 				}
+			}
+			if i > 0 && rapid.IntRange(0, 5).Draw(t, fmt.Sprintf("mm.odd%d", i)) == 0 {
+				// ragged matrices: a row that is NULL, a scalar, an object, empty or shorter than the others
+				switch rapid.IntRange(0, 4).Draw(t, fmt.Sprintf("mm.oddkind%d", i)) {
+				case 0:
+					mm = append(mm, nil)
+				case 1:
+					mm = append(mm, 7.0)
+				case 2:
+					mm = append(mm, map[string]any{"a": 1.0})
+				case 3:
+					mm = append(mm, []any{})
+				default:
+					mm = append(mm, row[:1])
+				}
+				continue
 			}
 			mm = append(mm, row)
 		}
